@@ -84,6 +84,7 @@ func run(c *xs.Ctx, r *xs.Result) {
 	cf := cfgs[cfi]
 	applyCfg(cf)
 	r.Add("configurations", cf.Name)
+	defer func() { r.Count("history_ops_refused_at_send_time", int64(refusedOps)) }()
 	item := 0
 	// (b) schedule
 	for _, gv := range variants(c.Thorough()) {
@@ -96,7 +97,10 @@ func run(c *xs.Ctx, r *xs.Result) {
 				r.Incomplete = true
 				return
 			}
-			runSchedule(c, r, cfi, gv, h)
+			gv, h := gv, h
+			guard(r, fmt.Sprintf("C05:schedule:%s:follower-refuses-the-elected-producers-chain", cf.Name), schedCase{"schedule", cfi, gv.Name, h.Name}, func() {
+				runSchedule(c, r, cfi, gv, h)
+			})
 		}
 	}
 	// (a) acceptance: mock genesis everywhere, the other genesis variants in the thorough tier
@@ -114,7 +118,10 @@ func run(c *xs.Ctx, r *xs.Result) {
 				r.Incomplete = true
 				return
 			}
-			runAccept(c, r, cfi, gv, sit, nil)
+			gv, sit := gv, sit
+			guard(r, fmt.Sprintf("C05:accept:%s:%s:follower-refuses-the-elected-producers-chain", cf.Name, sit.Name), acceptCase{Part: "accept", Cfg: cfi, Genesis: gv.Name, Situation: sit.Name}, func() {
+				runAccept(c, r, cfi, gv, sit, nil)
+			})
 		}
 	}
 }
@@ -143,7 +150,7 @@ func init() {
 			ev.Coverage["states"] = len(m.Sets["accept_situations"]) + int(m.Counters["schedule_prefixes_compared"]) + int(m.Counters["schedule_comparisons"])
 			ev.Coverage["transitions"] = m.Counters["accept_candidates"]*2 + m.Counters["schedule_slots_compared"]
 			ev.Coverage["traces_validated_against_impl"] = m.Counters["accept_candidates"]*2 + m.Counters["schedule_comparisons"]
-			for _, set := range []string{"accept_accepted_mutations", "accept_rejection_reasons", "schedule_variants", "schedule_configurations"} {
+			for _, set := range []string{"accept_accepted_mutations", "accept_rejection_reasons", "schedule_variants", "schedule_configurations", "schedule_active_pillar_counts"} {
 				var l []string
 				for k := range m.Sets[set] {
 					l = append(l, k)
